@@ -49,7 +49,7 @@ LEVEL_NOTE = ("Crash = Python-level interruption (generator abandoned/closed, ex
               "the audit hook.")
 TECHNIQUE = "fault enumeration at every crash point + pull/call counters + audit log of file opens"
 
-SHAPES = ["seq", "source", "two", "acc", "split", "split2", "grow"]
+SHAPES = ["seq", "source", "two", "acc", "split", "split2", "grow", "first", "last", "adjacent"]
 LATERS = [["run", "run"], ["run", "recompute", "run"], ["drop", "run"], ["hoist", "run"],
           ["recompute", "hoist_recompute", "run"], ["drop2", "run"]]
 
@@ -66,10 +66,11 @@ def cases(tier, seed):
                 for k in range(0, n):
                     crashes.append(["upstream", k])
                 for k in range(0, n_out):
-                    crashes.append(["downstream", k])
+                    if shape != "last":
+                        crashes.append(["downstream", k])
                 for crash in crashes:
                     for li, later in enumerate(LATERS):
-                        if "drop2" in later and shape != "two":
+                        if "drop2" in later and shape not in ("two", "adjacent"):
                             continue
                         yield {"shape": shape, "n": n, "ctx": ctx, "crash": crash,
                                "later": later}
@@ -176,6 +177,12 @@ def ref_output(shape, flow):
         out = [Down(c)(Up(c)(v)) for v in vals]
     elif shape == "two":
         out = [Down(c)(Mid(c)(Up(c)(v))) for v in vals]
+    elif shape == "first":
+        out = [Down(c)(v) for v in vals]
+    elif shape == "last":
+        out = [Up(c)(v) for v in vals]
+    elif shape == "adjacent":
+        out = [Down(c)(Up(c)(v)) for v in vals]
     elif shape == "acc":
         a = Acc(c)
         for v in vals:
@@ -225,6 +232,19 @@ class Pipeline(object):
             self._seq = lena.core.Sequence(Up(c), C(f1, recompute=recompute), down)
         elif shape == "two":
             seq = lena.core.Sequence(Up(c), C(f1, recompute=recompute), Mid(c),
+                                     C(f2, recompute=recompute), down)
+            self.start = lambda: seq.run(probe)
+            self._seq = seq
+        elif shape == "first":
+            seq = lena.core.Sequence(C(f1, recompute=recompute), down)
+            self.start = lambda: seq.run(probe)
+            self._seq = seq
+        elif shape == "last":
+            seq = lena.core.Sequence(Up(c), C(f1, recompute=recompute))
+            self.start = lambda: seq.run(probe)
+            self._seq = seq
+        elif shape == "adjacent":
+            seq = lena.core.Sequence(Up(c), C(f1, recompute=recompute),
                                      C(f2, recompute=recompute), down)
             self.start = lambda: seq.run(probe)
             self._seq = seq
@@ -419,7 +439,7 @@ def _run_case(r, obs, d):
             obs.check(pulls == 0 and p.c.up == 0,
                       "replay-runs-upstream:two:first-cache-after-drop2",
                       "%s: pulls=%d up calls=%d" % (ctxs, pulls, p.c.up))
-            obs.check(p.c.mid == n, "replay-skips-elements-after-cache:two",
+            obs.check(p.c.mid == (n if shape == "two" else 0), "replay-skips-elements-after-cache:two",
                       "%s: mid calls=%d, expected %d" % (ctxs, p.c.mid, n))
             continue
         if complete:
